@@ -43,6 +43,16 @@ CHECKS = {
    note="Trusted: as C03; the Err-to-loop decision table of the core was transcribed by reading the code; Instant::now() cannot be injected. Three genuine defects recorded as known findings (reconnect race, event-bus lag x2), one repaired (inproc refusal shut the binder down).",
    technique="Coq proof: saturating arithmetic lemmas (lia/nia) + invariants over the event-handling transition system; differential + fault-injection scenarios",
    design="6/C17"),
+ "C05": dict(
+   text="Coq proofs: generic confluence of a two-node Kahn network of prefix-monotone stream functions; instantiated with the engine model (F monotone by the engine's chunk independence): for ANY two configurations and ANY two delivery schedules (any order, any fragment sizes, byte-by-byte included) that drain both channels, both engines end in the same protocol states having emitted the same actions, and a delivery step is always enabled while bytes are in flight (no deadlock of the staged greeting). On the explicit grid {11 wire socket types}^2 x {NULL, PLAIN ok, PLAIN wrong password, mechanism mismatch either way} x {no ids, 1-byte/255-byte ids} every schedule ends with both sides in Data agreeing on each other's type and id (compatible) or nobody completing and a side failing (incompatible). ZMTP/3 gives exactly the ZMTP/2 table's verdict on all 121 pairs; inproc agrees on the 8 implemented types except DEALER-DEALER (known finding). Tie: pairs of real engines under generated schedules; real socket pairs of all type combinations over tcp and inproc.",
+   note="Trusted: as C04. The symbolic claim for arbitrary routing ids/credentials is replaced by the stated finite grid (vm_compute); schedule independence itself is unbounded. EOF propagation after one side closes is the transport's/actor's job.",
+   technique="Coq proof: Kahn-network confluence (least fixpoint, prefix order) + engine monotonicity; finite grid by vm_compute lifted with forallb_forall; schedule-driven differential correspondence",
+   design="6/C05"),
+ "C19": dict(
+   text="Coq proofs over the engine model with explicit time, for all (HEARTBEAT_IVL, HEARTBEAT_TIMEOUT), states and times: the complete decision rule of on_tick; a PING is sent only when idle >= IVL with none outstanding, and within two intervals when ticks come at most one interval apart; an unanswered PING closes with Timeout at the next tick after the deadline and ONLY then; PONG clears the flag; a run in which no tick finds a PING outstanding for the timeout never closes (live peer), nor does a connection with traffic inside each interval; every PING is answered by a PONG echoing the context as its own frame; malformed PINGs are ignored; ZMTP/2.0 sessions never ping. Tie: 400 generated timelines (ticks at virtual times away from decision boundaries, PINGs with 0..40-byte contexts, PONGs, malformed commands, data) on the real engine vs the model and an independent reference.",
+   note="Trusted: as C04; Instant::now() inside the engine cannot be injected, so network activity is always at harness time ~0 while tick times are virtual; tokio interval regularity is a premise; heartbeats under an encrypted framer are C18's subject, the io_uring backend's tick source C20's.",
+   technique="Coq proof: case analysis of the timed decision rule, run-level invariants by induction over input histories; differential correspondence with virtual tick times",
+   design="6/C19"),
 }
 NOT_APPLICABLE = {}
 
